@@ -17,6 +17,11 @@ type gen struct {
 	maxVisit int
 	waits    []int
 	noErrRes bool
+	// selfReach: some flows connect an action back to themselves
+	selfReach bool
+	// batchStopP: probability that a batch member of a tree runs in stop mode
+	batchStopP float64
+	batchMax   int
 }
 
 var allLeafKinds = []string{"base", "base", "plain", "retry", "fb", "retryfb", "func", "func", "func"}
@@ -238,6 +243,10 @@ func (g *gen) flowOver(members []int, density float64) *NodeSpec {
 			}
 		}
 	}
+	if g.selfReach && len(f.Conns) > 0 && g.chance(0.15) {
+		// the table routes back into the flow object that is executing (recursion)
+		f.Conns[g.r.IntN(len(f.Conns))].To = f.ID
+	}
 	g.r.Shuffle(len(f.Conns), func(i, j int) { f.Conns[i], f.Conns[j] = f.Conns[j], f.Conns[i] })
 	g.sc.Nodes = append(g.sc.Nodes, f)
 	return f
@@ -248,7 +257,11 @@ func (g *gen) tree(nLeaves, depth int, batchP float64) int {
 	var leaves []int
 	for i := 0; i < nLeaves; i++ {
 		if batchP > 0 && g.chance(batchP) {
-			leaves = append(leaves, g.batch(batchOpts{maxItems: 4, maxConc: 3, nv: 1 + g.r.IntN(g.maxVisit)}).ID)
+			mi := 4
+			if g.batchMax > 0 {
+				mi = g.batchMax
+			}
+			leaves = append(leaves, g.batch(batchOpts{maxItems: mi, maxConc: 3, nv: 1 + g.r.IntN(g.maxVisit), stopP: g.batchStopP}).ID)
 		} else {
 			leaves = append(leaves, g.leaf(1+g.r.IntN(g.maxVisit)).ID)
 		}
@@ -602,6 +615,7 @@ func genC03(prop, tier string, r *rand.Rand) *Scn {
 		g := newGen(prop, tier, r)
 		faultfree(g, r)
 		g.sleepP = 0.05
+		g.selfReach = true
 		nl := 1 + r.IntN(6)
 		if r.IntN(8) == 0 {
 			nl = 6 + r.IntN(7)
@@ -631,6 +645,8 @@ func genC04base(prop, tier string, r *rand.Rand) *Scn {
 		g := newGen(prop, tier, r)
 		faultfree(g, r)
 		g.sleepP = 0.05
+		g.batchStopP = 0.3 // fail-stop also means: nothing of the run is still executing when it has returned
+		g.batchMax = 10
 		g.sc.Root = g.tree(1+r.IntN(6), 1+r.IntN(4), 0.15)
 		if r.IntN(4) == 0 {
 			g.sc.Via = "flowrun"
